@@ -1,9 +1,402 @@
-import Uft.Model.Report
-/- C08 — placeholder while the harness is brought up -/
+import Uft.Lemmas.ReportOpen
+import Uft.Lemmas.ReportSort
+import Uft.Lemmas.ReportDiff
+import Uft.Lemmas.ReportMono
+/- C08 — Report statistics are exact sums over the trace.
+
+   Setting.  A data set is a list of call forests, one per task (`forests[i]` is what task `i`
+   executed: complete calls `Call.node f t0 t1 callees`).  `streamsOf forests` are the per-task
+   record streams, `reportNodes false m streams` is the model of `uftrace report`'s node table
+   (`build_function_tree` over the merged stream + `add_remaining_fstack`), `m` = max_stack.
+   `allInvs forests` is the tree-defined list of invocations: for every call its function, its
+   duration `t1 - t0` (`total`), its duration minus its callees' durations (`self`) and whether
+   the same function is among its open callers (`recursive`).
+   `wtL forest` ("well timed"): every call ends no earlier than it starts, before 2^64 ns, and
+   its callees' durations fit into its own — implied by non-decreasing timestamps
+   (`c08_monotone_is_well_timed`).  Without it the reader's `uint64_t` arithmetic and its clamp
+   `child ≤ total` decide; `c08_report_is_tree_fold` states the result for that case too. -/
 namespace Uft.C08
 open Uft.Report
+open Uft.Mcount (Call Calls)
 
-theorem c08_placeholder (a b : Nat) : add64 a b < M64 := by
-  unfold add64 M64; omega
+/-- the report's node of function `f` for a data set of complete forests -/
+def node (m : Nat) (forests : List Calls) (f : Nat) : Node := reportNodes false m (streamsOf forests) f
+
+/-- Core (no hypothesis on the timestamps): whatever the interleaving chosen by the merge, the
+    node table is the empty table folded over the forests' invocations *as the reader computes
+    them* (`upds`: `uint64_t` subtraction, clamp `child ≤ total`). -/
+theorem c08_report_is_tree_fold (m : Nat) (forests : List Calls) (hfit : ∀ cs ∈ forests, cs.height ≤ m) :
+    reportNodes false m (streamsOf forests) = Nodes.upds (fun _ => {}) (allUpds forests) :=
+  report_forests m forests hfit
+
+/-- The node table does not depend on how the tasks' records are interleaved: for *any* merged
+    stream `evs` (task index, record), it is the start table folded over the updates of task 0's
+    records, then task 1's, … -/
+theorem c08_interleaving_irrelevant (n : Nat) (s : St) (evs : List (Nat × Rec)) (h : ∀ e ∈ evs, e.1 < n) :
+    (run false s evs).nodes = s.nodes.upds (blocks n s.tasks evs) := by
+  obtain ⟨us, h1, h2⟩ := run_nodes n evs s h
+  rw [h1, Nodes.upds_perm _ h2]
+
+example : ∀ e ∈ [((0 : Nat), ({ time := 5, typ := 0, depth := 0, addr := 1 } : Rec)), (1, { time := 5, typ := 0, depth := 0, addr := 2 })],
+    e.1 < 2 := by decide
+
+theorem allUpds_eq_allInvs (forests : List Calls) (hwt : ∀ cs ∈ forests, wtL cs) :
+    allUpds forests = allInvs forests := by
+  unfold allUpds allInvs
+  exact flatMap_eq_of_forall _ _ _ (fun cs h => updsL_eq cs [] (hwt cs h))
+
+theorem forKey_length_tags (f : Nat) : ∀ (us vs : List Upd), us.map Upd.tag = vs.map Upd.tag →
+    (forKey f us).length = (forKey f vs).length
+  | [], [], _ => rfl
+  | [], _ :: _, h => by simp at h
+  | _ :: _, [], h => by simp at h
+  | u :: us, v :: vs, h => by
+    simp only [List.map_cons, List.cons.injEq, Upd.tag, Prod.mk.injEq] at h
+    have ih := forKey_length_tags f us vs h.2
+    simp only [forKey, List.filter_cons, h.1.1] at ih ⊢
+    split <;> simp [ih]
+
+theorem allUpds_tags (forests : List Calls) : (allUpds forests).map Upd.tag = (allInvs forests).map Upd.tag := by
+  unfold allUpds allInvs
+  rw [List.map_flatMap, List.map_flatMap]
+  exact flatMap_eq_of_forall _ _ _ (fun cs _ => updsL_tags cs [])
+
+/-- Calls = number of invocations of the function in the data set (no hypothesis on timestamps). -/
+theorem c08_calls_exact (m : Nat) (forests : List Calls) (hfit : ∀ cs ∈ forests, cs.height ≤ m) (f : Nat) :
+    (node m forests f).call = (forKey f (allInvs forests)).length := by
+  unfold node
+  rw [report_forests m forests hfit, Nodes.upds_apply, Node.upds_call,
+    forKey_length_tags f _ _ (allUpds_tags forests)]
+  simp
+
+/-- Total = summed duration of the invocations that have no invocation of the same function
+    among their callers; the recursive ones are summed in `rec`.  (The table prints Total mod 2^64.) -/
+theorem c08_total_exact (m : Nat) (forests : List Calls) (hfit : ∀ cs ∈ forests, cs.height ≤ m)
+    (hwt : ∀ cs ∈ forests, wtL cs) (f : Nat) :
+    (node m forests f).total.sum =
+        (((forKey f (allInvs forests)).filter (fun u => !u.recursive)).map (·.total)).sum ∧
+    (node m forests f).total.recs =
+        (((forKey f (allInvs forests)).filter (fun u => u.recursive)).map (·.total)).sum := by
+  unfold node
+  rw [report_forests m forests hfit, Nodes.upds_apply, Node.upds_total_sum, Node.upds_total_recs,
+    allUpds_eq_allInvs forests hwt]
+  simp
+
+/-- Self = Σ over the invocations of (duration − Σ durations of the direct callees). -/
+theorem c08_self_exact (m : Nat) (forests : List Calls) (hfit : ∀ cs ∈ forests, cs.height ≤ m)
+    (hwt : ∀ cs ∈ forests, wtL cs) (f : Nat) :
+    (node m forests f).self.sum = ((forKey f (allInvs forests)).map (·.self)).sum ∧
+    (node m forests f).self.recs = 0 := by
+  unfold node
+  rw [report_forests m forests hfit, Nodes.upds_apply, Node.upds_self_sum, Node.upds_self_recs,
+    allUpds_eq_allInvs forests hwt]
+  simp
+
+/-- non-vacuity: a forest with direct recursion that is well timed and fits max_stack = 4 -/
+def exForest : Calls :=
+  .cons (.node 1 10 100 (.cons (.node 2 20 30 .nil) (.cons (.node 1 30 70 (.cons (.node 3 40 40 .nil) .nil)) .nil)))
+    (.cons (.node 2 100 120 .nil) .nil)
+
+example : (∀ cs ∈ [exForest, exForest], cs.height ≤ 4) ∧ (∀ cs ∈ [exForest, exForest], wtL cs) := by
+  refine ⟨by simp [exForest, Calls.height, Call.height], ?_⟩
+  simp [exForest, wtL, wt, durSum, durI, M64]
+
+/-- Non-decreasing timestamps (below 2^64) make a forest well timed: the hypothesis `wtL` of the
+    theorems here holds for every timestamp-monotone record stream. -/
+theorem c08_monotone_is_well_timed (cs : Calls) (hm : Mono (times (evCalls 0 cs)))
+    (hb : ∀ x ∈ times (evCalls 0 cs), x < M64) : wtL cs :=
+  wtL_of_mono cs 0 hm hb
+
+example : Mono (times (evCalls 0 exForest)) ∧ ∀ x ∈ times (evCalls 0 exForest), x < M64 := by
+  simp [Mono, times, exForest, evCalls, evCall, M64]
+
+/-! ### the self times telescope -/
+
+theorem sum_zero_of_forall : ∀ (l : List Nat), (∀ y ∈ l, y = 0) → l.sum = 0
+  | [], _ => rfl
+  | a :: l, h => by
+    simp only [List.sum_cons, h a List.mem_cons_self, sum_zero_of_forall l (fun y hy => h y (List.mem_cons_of_mem _ hy))]
+
+theorem sum_map_add (g h : Nat → Nat) : ∀ (l : List Nat),
+    (l.map (fun f => g f + h f)).sum = (l.map g).sum + (l.map h).sum
+  | [] => rfl
+  | a :: l => by simp only [List.map_cons, List.sum_cons, sum_map_add g h l]; omega
+
+theorem sum_indicator (x k : Nat) : ∀ (keys : List Nat), keys.Nodup → k ∈ keys →
+    (keys.map (fun f => if k = f then x else 0)).sum = x
+  | [], _, h => by cases h
+  | a :: keys, hnd, hm => by
+    obtain ⟨ha, hk⟩ := List.nodup_cons.mp hnd
+    simp only [List.map_cons, List.sum_cons]
+    by_cases e : k = a
+    · subst e
+      have : (keys.map (fun f => if k = f then x else 0)).sum = 0 := by
+        apply sum_zero_of_forall
+        intro y hy
+        obtain ⟨f, hf, rfl⟩ := List.mem_map.mp hy
+        have : ¬ k = f := fun e => ha (e ▸ hf)
+        simp [this]
+      simp [this]
+    · have hm' : k ∈ keys := by
+        rcases List.mem_cons.mp hm with h | h
+        · exact absurd h e
+        · exact h
+      simp [e, sum_indicator x k keys hk hm']
+
+theorem sum_forKey_self (keys : List Nat) (hnd : keys.Nodup) : ∀ (us : List Upd), (∀ u ∈ us, u.key ∈ keys) →
+    (keys.map (fun f => ((forKey f us).map (·.self)).sum)).sum = (us.map (·.self)).sum
+  | [], _ => by
+    simp only [forKey, List.filter_nil, List.map_nil, List.sum_nil]
+    apply sum_zero_of_forall
+    intro y hy
+    obtain ⟨f, _, rfl⟩ := List.mem_map.mp hy
+    rfl
+  | u :: us, h => by
+    have ih := sum_forKey_self keys hnd us (fun x hx => h x (List.mem_cons_of_mem _ hx))
+    have hk : u.key ∈ keys := h u List.mem_cons_self
+    have e : ∀ f, ((forKey f (u :: us)).map (·.self)).sum =
+        (if u.key = f then u.self else 0) + ((forKey f us).map (·.self)).sum := by
+      intro f
+      by_cases hf : u.key = f
+      · have : (u.key == f) = true := by simp [hf]
+        simp [forKey, List.filter_cons, this, hf]
+      · have : (u.key == f) = false := by simp [hf]
+        simp [forKey, List.filter_cons, this, hf]
+    simp only [e, List.map_cons, List.sum_cons]
+    rw [sum_map_add, sum_indicator u.self u.key keys hnd hk, ih]
+
+/-- Telescoping, one task: the self times of a task's invocations add up to the summed duration of
+    its top-level calls. -/
+theorem c08_self_telescopes_task (cs : Calls) (hwt : wtL cs) :
+    ((invsL [] cs).map (·.self)).sum = durSum cs :=
+  self_sum_calls cs [] hwt
+
+/-- Telescoping, the table: over any list of distinct function ids that covers the functions of
+    the data set, the Self column adds up to the summed duration of all tasks' top-level calls. -/
+theorem c08_self_telescopes (m : Nat) (forests : List Calls) (hfit : ∀ cs ∈ forests, cs.height ≤ m)
+    (hwt : ∀ cs ∈ forests, wtL cs) (keys : List Nat) (hnd : keys.Nodup)
+    (hcov : ∀ u ∈ allInvs forests, u.key ∈ keys) :
+    (keys.map (fun f => (node m forests f).self.sum)).sum = (forests.map durSum).sum := by
+  have h1 : ∀ f, (node m forests f).self.sum = ((forKey f (allInvs forests)).map (·.self)).sum :=
+    fun f => (c08_self_exact m forests hfit hwt f).1
+  simp only [h1]
+  rw [sum_forKey_self keys hnd _ hcov]
+  unfold allInvs
+  clear hcov h1 hfit
+  induction forests with
+  | nil => rfl
+  | cons cs rest ih =>
+    simp only [List.flatMap_cons, List.map_append, List.sum_append, List.map_cons, List.sum_cons]
+    rw [self_sum_calls cs [] (hwt cs List.mem_cons_self), ih (fun x hx => hwt x (List.mem_cons_of_mem _ hx))]
+
+example : ∃ keys : List Nat, keys.Nodup ∧ ∀ u ∈ allInvs [exForest, exForest], u.key ∈ keys :=
+  ⟨[1, 2, 3], by decide, by simp [allInvs, exForest, invsL, invs]⟩
+
+/-! ### min / max / avg -/
+
+mutual
+theorem invs_lt : ∀ (c : Call) (ctx : List Nat), wt c → ∀ u ∈ invs ctx c, u.total < M64 ∧ u.self < M64
+  | .node f t0 t1 kids, ctx, h => by
+    simp only [wt] at h
+    intro u hu
+    simp only [invs, List.mem_append, List.mem_singleton] at hu
+    rcases hu with hu | hu
+    · exact invsL_lt kids _ h.2.2.2 u hu
+    · subst hu; simp only; omega
+theorem invsL_lt : ∀ (cs : Calls) (ctx : List Nat), wtL cs → ∀ u ∈ invsL ctx cs, u.total < M64 ∧ u.self < M64
+  | .nil, _, _ => by intro u hu; simp [invsL] at hu
+  | .cons c rest, ctx, h => by
+    simp only [wtL] at h
+    intro u hu
+    simp only [invsL, List.mem_append] at hu
+    rcases hu with hu | hu
+    · exact invs_lt c ctx h.1 u hu
+    · exact invsL_lt rest ctx h.2 u hu
+end
+
+theorem sum_split_rec (us : List Upd) :
+    ((us.filter (fun u => !u.recursive)).map (·.total)).sum + ((us.filter (fun u => u.recursive)).map (·.total)).sum =
+      (us.map (·.total)).sum := by
+  induction us with
+  | nil => rfl
+  | cons u us ih =>
+    cases hr : u.recursive <;> simp [List.filter_cons, hr] <;> omega
+
+theorem foldl_min_in (l : List Nat) (hne : l ≠ []) (hlt : ∀ x ∈ l, x < M64) : l.foldl min (M64 - 1) ∈ l := by
+  rcases foldl_min_mem l (M64 - 1) with h | h
+  · obtain ⟨x, hx⟩ := List.exists_mem_of_ne_nil l hne
+    have h1 := (foldl_min_le l (M64 - 1)).2 x hx
+    have h2 := hlt x hx
+    have : x = l.foldl min (M64 - 1) := by omega
+    exact this ▸ hx
+  · exact h
+
+theorem foldl_max_in (l : List Nat) (hne : l ≠ []) : l.foldl max 0 ∈ l := by
+  rcases foldl_max_mem l 0 with h | h
+  · obtain ⟨x, hx⟩ := List.exists_mem_of_ne_nil l hne
+    have h1 := (foldl_max_ge l 0).2 x hx
+    have : x = l.foldl max 0 := by omega
+    exact this ▸ hx
+  · exact h
+
+/-- min / max are the extremal durations of the function's invocations (all of them, recursive
+    ones included), avg is the C integer division of their sum (mod 2^64) by the call count — for
+    the Total and the Self figures; these are the columns of --avg-total / --avg-self. -/
+theorem c08_min_max_avg (m : Nat) (forests : List Calls) (hfit : ∀ cs ∈ forests, cs.height ≤ m)
+    (hwt : ∀ cs ∈ forests, wtL cs) (f : Nat) (hcalled : forKey f (allInvs forests) ≠ []) :
+    let totals := (forKey f (allInvs forests)).map (·.total)
+    let selfs := (forKey f (allInvs forests)).map (·.self)
+    let n := node m forests f
+    (n.total.min ∈ totals ∧ ∀ d ∈ totals, n.total.min ≤ d) ∧
+    (n.total.max ∈ totals ∧ ∀ d ∈ totals, d ≤ n.total.max) ∧
+    (n.self.min ∈ selfs ∧ ∀ d ∈ selfs, n.self.min ≤ d) ∧
+    (n.self.max ∈ selfs ∧ ∀ d ∈ selfs, d ≤ n.self.max) ∧
+    n.total.avg n.call = (totals.sum % M64) / totals.length ∧
+    n.self.avg n.call = (selfs.sum % M64) / selfs.length := by
+  intro totals selfs n
+  have hmem : ∀ u ∈ forKey f (allInvs forests), u.total < M64 ∧ u.self < M64 := by
+    intro u hu
+    have hu' : u ∈ allInvs forests := (List.mem_filter.mp hu).1
+    obtain ⟨cs, hcs, hin⟩ := List.mem_flatMap.mp hu'
+    exact invsL_lt cs [] (hwt cs hcs) u hin
+  have htne : totals ≠ [] := by simpa [totals] using hcalled
+  have hsne : selfs ≠ [] := by simpa [selfs] using hcalled
+  have htl : ∀ x ∈ totals, x < M64 := by
+    intro x hx; obtain ⟨u, hu, rfl⟩ := List.mem_map.mp hx; exact (hmem u hu).1
+  have hsl : ∀ x ∈ selfs, x < M64 := by
+    intro x hx; obtain ⟨u, hu, rfl⟩ := List.mem_map.mp hx; exact (hmem u hu).2
+  have hn : n = ({} : Node).upds (forKey f (allInvs forests)) := by
+    show reportNodes false m (streamsOf forests) f = _
+    rw [report_forests m forests hfit, Nodes.upds_apply, allUpds_eq_allInvs forests hwt]
+  have e1 : n.total.min = totals.foldl min (M64 - 1) := by rw [hn, Node.upds_total_min]
+  have e2 : n.total.max = totals.foldl max 0 := by rw [hn, Node.upds_total_max]
+  have e3 : n.self.min = selfs.foldl min (M64 - 1) := by rw [hn, Node.upds_self_min]
+  have e4 : n.self.max = selfs.foldl max 0 := by rw [hn, Node.upds_self_max]
+  have e5 : n.call = totals.length := by rw [hn, Node.upds_call]; simp [totals]
+  have e6 : n.total.sum + n.total.recs = totals.sum := by
+    rw [hn, Node.upds_total_sum, Node.upds_total_recs]
+    have := sum_split_rec (forKey f (allInvs forests))
+    simp only [totals]; simp; omega
+  have e7 : n.self.sum + n.self.recs = selfs.sum := by
+    rw [hn, Node.upds_self_sum, Node.upds_self_recs]; simp [selfs]
+  refine ⟨⟨?_, ?_⟩, ⟨?_, ?_⟩, ⟨?_, ?_⟩, ⟨?_, ?_⟩, ?_, ?_⟩
+  · rw [e1]; exact foldl_min_in totals htne htl
+  · rw [e1]; exact (foldl_min_le totals _).2
+  · rw [e2]; exact foldl_max_in totals htne
+  · rw [e2]; exact (foldl_max_ge totals _).2
+  · rw [e3]; exact foldl_min_in selfs hsne hsl
+  · rw [e3]; exact (foldl_min_le selfs _).2
+  · rw [e4]; exact foldl_max_in selfs hsne
+  · rw [e4]; exact (foldl_max_ge selfs _).2
+  · simp only [Stat.avg, e6, e5]
+  · have : selfs.length = totals.length := by simp [selfs, totals]
+    simp only [Stat.avg, e7, e5, this]
+
+example : forKey 1 (allInvs [exForest, exForest]) ≠ [] := by
+  simp [allInvs, exForest, invsL, invs, forKey]
+
+/-! ### sorting -/
+
+/-- The printed rows are the rows of the name tree, reordered so that no row is followed by one
+    that compares greater under the requested key chain (first key that differs decides; `func`
+    compares names in reverse). -/
+theorem c08_sorted_by_keys (keys : List Key) (rows : List Row) :
+    (sortByKeys keys rows).Perm rows ∧
+    (sortByKeys keys rows).Pairwise (fun a b => ¬ cmpChain (keys.map Key.cmp) a b < 0) := by
+  have hc : IsCmp (cmpChain (keys.map Key.cmp)) := by
+    apply cmpChain_isCmp
+    intro c hcm
+    obtain ⟨k, _, rfl⟩ := List.mem_map.mp hcm
+    exact Key.cmp_isCmp k
+  exact sortRows_spec _ hc rows
+
+/-- A sort key given more than once adds nothing to the order: the chain without the repetitions
+    compares every pair of rows the same way, so skipping a key that is already linked (the
+    repair of finding F-C08-DUP) sorts exactly as requested. -/
+theorem c08_duplicate_keys_redundant (ks : List Key) (rows : List Row) :
+    sortByKeys (dedupKeys ks) rows = sortByKeys ks rows := by
+  unfold sortByKeys
+  rw [cmpChain_dedup]
+
+/-- The repaired `report_setup_sort` + `report_sort_nodes` for any accepted `-s` string: the
+    report terminates and its rows are those of the name tree ordered by the *requested* chain
+    (repetitions included). -/
+theorem c08_sorted_by_requested_keys (names : List String) (ks : List Key) (rows : List Row)
+    (hk : setupSort names = some ks) :
+    ∃ chain out, setupSortG true names = some chain ∧ sortByChainG chain rows = some out ∧
+      out.Perm rows ∧ out.Pairwise (fun a b => ¬ cmpChain (ks.map Key.cmp) a b < 0) := by
+  refine ⟨(dedupKeys ks, false), sortByKeys ks rows, by simp [setupSortG, hk], ?_, c08_sorted_by_keys ks rows⟩
+  simp only [sortByChainG, Bool.false_and, Bool.false_eq_true, if_false, cmpChain_dedup]
+  rfl
+
+example : setupSort ["total", "self", "total"] = some [.total, .self, .total] := by decide
+
+/-- F-C08-DUP witness (the code as it is, `fixed = false`): with two rows that tie on `total`,
+    `-s total,total` never returns (`total.next = total`), and `-s total,self,total` has dropped
+    `self` from the chain: the rows stay in name order although the second has the larger self
+    time.  The repaired code orders them by self time. -/
+theorem c08_prefix_dup_key_witness :
+    let a : Row := { key := 1, call := 1, size := 0, tsum := 100, tavg := 100, tmin := 100, tmax := 100,
+                     ssum := 60, savg := 60, smin := 60, smax := 60 }
+    let b : Row := { a with key := 2, ssum := 100, savg := 100, smin := 100, smax := 100 }
+    (setupSortG false ["total", "total"]).map (fun c => sortByChainG c [a, b]) = some none ∧
+    (setupSortG false ["total", "self", "total"]).map (fun c => sortByChainG c [a, b]) = some (some [a, b]) ∧
+    (setupSortG true ["total", "self", "total"]).map (fun c => sortByChainG c [a, b]) = some (some [b, a]) := by
+  decide
+
+/-! ### --diff against itself -/
+
+theorem nameRows_nodup (ns : Nodes) (size : Nat → Nat) (keys : List Nat) (h : keys.Nodup) :
+    ((nameRows ns size keys).map (·.key)).Nodup := by
+  have : (nameRows ns size keys).map (·.key) = keys.filter (fun k => (ns k).call > 0) := by
+    simp only [nameRows, List.map_map]
+    conv => rhs; rw [← List.map_id (keys.filter _)]
+    apply List.map_congr_left
+    intro k _
+    rfl
+  rw [this]
+  exact h.filter _
+
+/-- `--diff` of a node table against itself (the same data directory read twice gives the same
+    table): every function is paired with its own figures, no row is added, and every difference
+    the table shows is zero — whatever sort keys, --sort-column and diff policy. -/
+theorem c08_diff_self_zero (keys : List Key) (column : Nat) (absolute : Bool)
+    (ns : Nodes) (size : Nat → Nat) (ids : List Nat) (hnd : ids.Nodup) :
+    let rows := nameRows ns size ids
+    (diffByKeys keys column absolute rows rows).Perm (rows.map (fun b => { base := b, pair := b })) ∧
+    ∀ d ∈ diffByKeys keys column absolute rows rows, d.pair = d.base ∧ ∀ k : Key, diff64 (k.val d.base) (k.val d.pair) = 0 := by
+  intro rows
+  have hp := diffRows_self (cmpChainD (keys.map (Key.cmpDiff column absolute))) rows (nameRows_nodup ns size ids hnd)
+  refine ⟨hp, ?_⟩
+  intro d hd
+  have := hp.mem_iff.mp hd
+  obtain ⟨b, _, rfl⟩ := List.mem_map.mp this
+  exact ⟨rfl, fun k => diff64_self _⟩
+
+example : ([0, 1, 2, 7] : List Nat).Nodup := by decide
+
+/-! ### calls still open at the end of the data -/
+
+/-- A task whose data ends inside calls: `done` are its completed top-level calls, `spine` the
+    calls still open (outermost first, each with the callees it completed).  The report is the
+    report of the same task with every open call returning at the time of the last record:
+    open calls are charged up to the last timestamp, and their callers get that time as child time. -/
+theorem c08_open_calls_accounted (m : Nat) (done : Calls) (spine : Open)
+    (hd : done.height ≤ m) (hs : openHeight spine ≤ m)
+    (hwd : wtL done)
+    (hw : wtL (closeAt (lastTimeOf 0 (evCalls 0 done ++ evOpen 0 spine)) spine)) :
+    reportNodes false m [evCalls 0 done ++ evOpen 0 spine] =
+      Nodes.upds (fun _ => {})
+        (invsL [] (capp done (closeAt (lastTimeOf 0 (evCalls 0 done ++ evOpen 0 spine)) spine))) := by
+  rw [report_open m done spine hd hs hw, updsL_eq _ [] ((wtL_capp _ _).mpr ⟨hwd, hw⟩)]
+
+/-- non-vacuity: f1 entered at 10 is still open, completed f2 (20–30), then entered f3 at 40 (still
+    open, no callees); the last record is f3's entry at 40 -/
+example : let done : Calls := .cons (.node 5 1 9 .nil) .nil
+    let spine : Open := [(1, 10, .cons (.node 2 20 30 .nil) .nil), (3, 40, .nil)]
+    done.height ≤ 4 ∧ openHeight spine ≤ 4 ∧ wtL done ∧
+    wtL (closeAt (lastTimeOf 0 (evCalls 0 done ++ evOpen 0 spine)) spine) := by
+  simp [Calls.height, Call.height, openHeight, wtL, wt, closeAt, capp, durSum, durI, lastTimeOf, evCalls, evCall,
+    evOpen, M64]
 
 end Uft.C08
